@@ -6,6 +6,9 @@ put a contract on.  Obligations: each of the three structs derives Clone, no man
 no field type shares state (Rc, Arc, Cell, RefCell, raw pointers, references).  "A clone is equal, independent and
 behaves identically" then follows from field-wise cloning of owned data -- an assumption about #[derive], not a proof.
 
+C14 / C17 (capacity is unobservable): no function outside the capacity API (capacity, reserve*, try_reserve*,
+shrink_to_fit, with_capacity*) reads a capacity.  Not met => undecided, never a violation by itself.
+
 C18 (hasher independence): no function of the crate calls into the hasher itself (BuildHasher / Hasher methods,
 `.hasher()`, `hash_one`, `.hash(`): all hashing is IndexMap's.
 
@@ -23,6 +26,7 @@ sys.path.insert(0, os.path.join(VERIF, "tools"))
 import gen
 
 SHARED = re.compile(r"\b(Rc|Arc|Cell|RefCell|UnsafeCell|Mutex|RwLock)\b|\*\s*(mut|const)\b|&")
+CAP_API = re.compile(r"^(capacity|reserve|reserve_exact|try_reserve|try_reserve_exact|shrink_to_fit|with_capacity\w*)$")
 HASHER_USE = re.compile(r"\.hasher\(\)|\bbuild_hasher\b|\bhash_one\b|\.hash\(|\bHasher::|\bBuildHasher::")
 
 
@@ -39,6 +43,17 @@ def obligations(pid):
             out.append({"id": "%s#owned_fields" % name, "ok": ok_fields, "what": "no field of %s shares state (Rc/Arc/Cell/pointer/reference)" % name})
             manual = [im for _, _, im in impls if gen.compact(im.get("trait", "")) == "Clone" and re.sub(r"<.*", "", gen.compact(im["self_ty_text"])) == name]
             out.append({"id": "%s#no_manual_clone" % name, "ok": not manual, "what": "no manual impl Clone for %s" % name})
+    if pid in ("C14", "C17"):
+        # capacity is not part of any contract's view; a function outside the capacity API that reads it can let two equal
+        # queues (a queue and its clone, a queue before and after reserve) take different decisions -- a relation between two
+        # runs, which no postcondition of one call states.  Not met => undecided (the read may be harmless), the search
+        # compares twins that differ in capacity only.
+        for fn in fns:
+            if CAP_API.match(fn.name):
+                continue
+            body = re.sub(r"//[^\n]*", "", fn.src.t(fn.node["body"]))
+            hit = re.search(r"\.capacity\(\)", body)
+            out.append({"id": fn.key + "#no_capacity_read", "ok": hit is None, "what": "no read of a capacity outside the capacity API" + (" (found `.capacity()` in %s)" % fn.key if hit else "")})
     if pid == "C18":
         for fn in fns:
             body = fn.src.t(fn.node["body"])
